@@ -56,12 +56,18 @@ def prepare(prop_id: str | None = None) -> dict:
 
     Returns {tables: {...}, driver_ok, proofs_ok, log}.  Serialised across concurrent checks.
     """
+    import funcs_from_source
     import gen_driver
     import tables_from_source
 
     info = {}
     with _Lock("lake.lock"):
         info["tables"] = tables_from_source.regenerate()
+        # T1b: the decision functions themselves, translated from the source; an untranslatable function is a
+        # broken tie for the properties that list "fn_<name>" in TABLES
+        funcs = funcs_from_source.regenerate()
+        info["tables"]["broken"] = info["tables"]["broken"] + funcs["broken"]
+        info["tables"]["funcs_T1b"] = funcs
         gen_driver.generate()
         rc, log = _lake("driver")
         info["driver_ok"] = rc == 0
